@@ -206,6 +206,15 @@ theorem list_accept_iff (vs : List Int) (k : Kind) :
         have := (hl t).mpr ⟨rfl, h⟩
         rw [hr] at this; cases this
 
+/-- the literal iff above is stated for 0 or 1 minus signs only: with two, it is FALSE of the code — only the innermost
+    minus folds, the outer one is a run-time `ineg`, so `-(-9223372036854775808)` is accepted although its Python value
+    `2^63` is out of range (it evaluates to `wrapS (2^63) = -2^63`: C04's wrap-around of an expression, not a literal) -/
+theorem deeper_negation_not_range_checked :
+    checkLit (.neg (.neg (.pos 9223372036854775808))) .int = .ok .int ∧
+    ¬ InIntRange (Lit.neg (.neg (.pos 9223372036854775808))).pyVal ∧
+    (evalFolded (fold (.neg (.neg (.pos 9223372036854775808))))).map BitVec.toInt = some (-9223372036854775808) := by
+  decide
+
 /-! ## non-vacuity / concrete instances -/
 example : checkConst 9223372036854775807 .int = .ok .int := by decide
 example : checkConst 9223372036854775808 .int = .overflow := by decide
